@@ -330,6 +330,9 @@ def run(ctx):
                 res = jax.jit(node)(x, y) if i == "jax-jit" else node(x, y)
             except Exception as e:  # noqa: BLE001
                 unsupported = df == "adjoint" and any(m["k"] != "expval" for m in req["meas"])  # documented: adjoint differentiates expectation values only
+                if d == "null.qubit" and "Incorrect output dtype" in str(e):
+                    ctx.count("null.qubit-jit-dtype")  # the mock device returns a float state; dtype is outside the statement
+                    continue
                 if is_rejection(e) or unsupported:
                     ctx.reject(f"{d}/{i}/{df}:{type(e).__name__}")
                 else:
@@ -419,7 +422,7 @@ def run(ctx):
                 x, y = inputs("autograd", None)
                 J = qp.jacobian(node, argnums=[0, 1] if multi else 1)(x, y)
         except Exception as e:  # noqa: BLE001
-            if is_rejection(e):
+            if is_rejection(e) or (diff == "adjoint" and any(m["k"] != "expval" for m in meas)):
                 ctx.reject(f"jac:{dev_name}/{fw}/{diff}:{type(e).__name__}")
             else:
                 ctx.ev("jac.spec")
